@@ -109,6 +109,9 @@ pub fn human_duration(_args: &[String]) -> String {
         }
     }
     points.push(u64::MAX as u128 * 1000 + 999);
+    // around 2^64 ms (where a narrowed millisecond count would wrap) and well beyond
+    let year = 365u128 * 24 * 3600 * S;
+    for y in [584_554_049u128, 584_554_050, 584_554_051, 600_000_000, 5_000_000_000, 584_942_417_354] { points.push(y * year); }
     points.sort();
     points.dedup();
     let mut tried = 0u64;
@@ -129,6 +132,16 @@ pub fn human_duration(_args: &[String]) -> String {
         if exact && (plain.0 != want || plain.1 != want_alt) {
             return format!("{{\"found\": true, \"clause\": \"C15 HumanDuration follows its rounding rule (nearest count, at least 2 above seconds, smaller unit below 1.5 units)\", \"tried\": {}, \"input\": {{\"millis\": \"{}\", \"expected\": {}, \"printed\": {}, \"printed_alt\": {}}}, \"rerun\": \"replay human_duration\"}}",
                 tried, ms, crate::js(&want), crate::js(&plain.0), crate::js(&plain.1));
+        }
+        // beyond the exactly comparable range the shown count is still the duration within a millionth
+        if !exact {
+            let shown: u128 = plain.1.trim_end_matches(|c: char| c.is_alphabetic()).parse().unwrap_or(0);
+            let truth = t;
+            let diff = if shown > truth { shown - truth } else { truth - shown };
+            if plain.1.ends_with(alt) == false || diff * 1_000_000 > truth {
+                return format!("{{\"found\": true, \"clause\": \"C15 HumanDuration shows the duration faithfully, also for very long durations\", \"tried\": {}, \"input\": {{\"millis\": \"{}\", \"expected_about\": {}, \"printed\": {}}}, \"rerun\": \"replay human_duration\"}}",
+                    tried, ms, crate::js(&want_alt), crate::js(&plain.1));
+            }
         }
         // monotone: the value shown never decreases when the duration grows
         let shown_t: u128 = plain.1.trim_end_matches(|c: char| c.is_alphabetic()).parse().unwrap_or(0);
